@@ -1025,6 +1025,27 @@ fn splice_blocking_programs(out: &mut Vec<ProgOut>, rng: &mut Rng) {
             out.push(ProgOut { name: format!("s{c}"), kind: "blocking", b, variant: None, oracle: desc, desc_override: None, run_alias: None });
             c += 1;
         }
+        // behind a named OUTPUT port: source -> partition(2); `[0]` (the even items) -> unary union/tee ->
+        // pipeline -> unary union/tee -> operator, `[1]` dropped into an earlier sink (oracle tag `evens ..`)
+        {
+            let pe = PES[ki % 2];
+            let mut b = Builder::default();
+            let s0 = b.source();
+            let ps = multi_out(&mut b, &s0, "partition", Pe::T, 2);
+            b.sink(&ps[1]);
+            let i = splice(&mut b, ps[0].clone(), SPLICES[ki % 6]);
+            let keyed = kind.ends_with("_keyed");
+            let i = if keyed { prep(&mut b, &i, "KN", rng) } else { i };
+            let d = rng.below(2) as usize;
+            let i = passthrough(&mut b, i, d, rng);
+            let i = splice(&mut b, i, SPLICES[(ki + 1) % 3]);
+            let (desc, code) = blocking_unary_op(kind, pe);
+            let ordered = *kind == "sort" || (i.ordered && !keyed);
+            let o = b.un(&i, &desc, &code, if keyed { p(N, N) } else { N }, ordered, 36, false);
+            b.sink(&o);
+            out.push(ProgOut { name: format!("s{c}"), kind: "blocking", b, variant: None, oracle: format!("evens {desc}"), desc_override: None, run_alias: None });
+            c += 1;
+        }
     }
     let binary = ["anti_join", "difference", "join", "cross_join_multiset", "cross_join", "zip"];
     let combos = [(Pe::T, Pe::T), (Pe::T, Pe::S), (Pe::S, Pe::T), (Pe::S, Pe::S)];
@@ -1073,11 +1094,13 @@ fn splice_blocking_programs(out: &mut Vec<ProgOut>, rng: &mut Rng) {
 /// C22: for every two-input operator of the catalogue (one persistence combination each, rotating) and
 /// each of its input ports: the pair (original, the same program with a unary `tee()` / `union()` with
 /// `[0]` input port / `union()` with elided input port inserted directly in front of that port), plus one
-/// pair with a chain of two of them. One compiled original is shared by its variants.
+/// pair with a chain of two of them; the same behind each output port of partition / unzip. One compiled
+/// original is shared by its variants.
 fn port_perturb_programs(out: &mut Vec<ProgOut>, rng: &mut Rng) {
     let mut seen = std::collections::BTreeSet::new();
     let mut idx = 0usize;
-    let push_pairs = |out: &mut Vec<ProgOut>, b: Builder, target: usize, idx: usize| {
+    // `targets[port]` = (node, input index) in front of which the stages are inserted
+    let push_pairs = |out: &mut Vec<ProgOut>, b: Builder, targets: [(usize, usize); 2], idx: usize| {
         let orig = format!("p{idx}");
         let mut plans: Vec<(String, Vec<(usize, &str)>)> = vec![];
         for port in 0..2 {
@@ -1090,7 +1113,7 @@ fn port_perturb_programs(out: &mut Vec<ProgOut>, rng: &mut Rng) {
         for (vi, (name, steps)) in plans.into_iter().enumerate() {
             let mut v = b.clone();
             v.next_id = b.next_id + 100;
-            let lines: Vec<String> = steps.iter().map(|(port, st)| perturb_at(&mut v, target, *port, st)).collect();
+            let lines: Vec<String> = steps.iter().map(|(port, st)| perturb_at(&mut v, targets[*port].0, targets[*port].1, st)).collect();
             out.push(ProgOut { name: if vi == 0 { orig.clone() } else { name }, kind: "port", b: b.clone(), variant: Some((lines, v)), oracle: String::new(), desc_override: None, run_alias: if vi == 0 { None } else { Some(orig.clone()) } });
         }
     };
@@ -1123,7 +1146,7 @@ fn port_perturb_programs(out: &mut Vec<ProgOut>, rng: &mut Rng) {
             let m = menu2.iter().find(|x| x.0 == pick).unwrap().clone();
             let o = b.multi(&[(&a, m.2[0]), (&c, m.2[1])], &m.0, &m.1, m.3.clone(), m.4, m.5, m.6);
             b.sink(&o);
-            push_pairs(out, b, o.node, idx);
+            push_pairs(out, b, [(o.node, 0), (o.node, 1)], idx);
             idx += 1;
         }
     }
@@ -1133,7 +1156,24 @@ fn port_perturb_programs(out: &mut Vec<ProgOut>, rng: &mut Rng) {
         let ins: Vec<Out> = (0..2).map(|_| b.source()).collect();
         let u = union_n(&mut b, &ins);
         b.sink(&u);
-        push_pairs(out, b, u.node, idx);
+        push_pairs(out, b, [(u.node, 0), (u.node, 1)], idx);
+        idx += 1;
+    }
+    // the same directly behind the named OUTPUT ports of partition / unzip (the consumers of `n[0]`, `n[1]`)
+    for which in ["partition", "unzip"] {
+        let mut b = Builder::default();
+        let s = b.source();
+        let s = if which == "unzip" { prep(&mut b, &s, "KN", rng) } else { s };
+        let os = multi_out(&mut b, &s, which, Pe::T, 2);
+        let mut tg = [(0usize, 0usize); 2];
+        for (k, o) in os.iter().enumerate() {
+            let tr = o.ty.rust();
+            let m = b.un(o, "map id", &format!("map(|x: {tr}| x)"), o.ty.clone(), o.ordered, o.est, false);
+            b.sink(&m);
+            tg[k] = (m.node, 0);
+        }
+        push_pairs(out, b, tg, idx);
+        idx += 1;
     }
 }
 
@@ -1146,8 +1186,8 @@ fn is_splice(n: &NodeD) -> bool {
 /// Run the program text through the real `dfir_lang` pipeline (parse, flat graph, eliminate, partition;
 /// no rustc) and compare, for every operator input of the description, which producer the partitioned
 /// graph connects to which input port (through handoffs) with the program as written (unary unions and
-/// tees resolved to what feeds them). Returns (node id, text, the difference is a pure re-labelling of the
-/// ports of one operator whose inputs all have the same item type = rustc will still accept it).
+/// tees resolved to what feeds them). Returns (node id, text, the operator still receives the same sequence of
+/// item types = rustc will still accept the program and the execution oracles judge it).
 fn wiring_check(b: &Builder) -> Vec<(Option<usize>, String, bool)> {
     use dfir_lang::graph::{GraphNode, GraphNodeId};
     let text = b.body();
@@ -1204,16 +1244,54 @@ fn wiring_check(b: &Builder) -> Vec<(Option<usize>, String, bool)> {
         }
         exp.sort();
         if got != exp {
-            let strip = |v: &Vec<(String, String, String)>| {
-                let mut w: Vec<(String, String)> = v.iter().map(|(a, s, _)| (a.clone(), s.clone())).collect();
-                w.sort();
-                w
+            // What matters is which producer an operator receives as its k-th input: code generation
+            // hands an operator its inputs in the order of their destination ports (integers, then names
+            // alphabetically, then elided; equal ports: unspecified). A changed port label that leaves that
+            // order alone is not reported here (C20's business); a changed order / producer is.
+            let key = |d: &str| -> (u8, u64, String) {
+                if d == "[]" {
+                    (2, 0, String::new())
+                } else if let Ok(i) = d.parse::<u64>() {
+                    (0, i, String::new())
+                } else {
+                    (1, 0, d.to_string())
+                }
             };
-            let t0 = b.ty(n.ins[0]);
-            let same_ty = n.ins.len() >= 2 && n.ins.iter().all(|r| b.ty(*r) == t0);
-            let relabel = same_ty && strip(&got) == strip(&exp);
+            let ty_of = |v: &str, sp: &str| -> Option<Ty> {
+                let label = if sp == "[]" { v.to_string() } else { format!("{v}[{sp}]") };
+                b.nodes.iter().find_map(|m| m.out_labels.iter().position(|l| *l == label).map(|k| m.out_tys[k].clone())).or_else(|| {
+                    // an output port the program does not have (a lost / changed source port): still typed
+                    // when every output of that operator has the same item type
+                    let pre = format!("{v}[");
+                    let m = b.nodes.iter().find(|m| m.out_labels.iter().any(|l| *l == v || l.starts_with(&pre)))?;
+                    m.out_tys.iter().all(|t| *t == m.out_tys[0]).then(|| m.out_tys[0].clone())
+                })
+            };
+            // producers in input order; None = two different producers on equal ports
+            let order = |v: &Vec<(String, String, String)>| -> Option<Vec<(String, String)>> {
+                let mut w: Vec<((u8, u64, String), (String, String))> = v.iter().map(|(a, s, d)| (key(d), (a.clone(), s.clone()))).collect();
+                w.sort();
+                let tie = w.windows(2).any(|p| p[0].0 == p[1].0 && p[0].1 != p[1].1);
+                if tie { None } else { Some(w.into_iter().map(|x| x.1).collect()) }
+            };
+            let (eo, go) = (order(&exp), order(&got));
+            if eo.is_some() && eo == go {
+                continue;
+            }
+            // Does rustc still accept the program (then the execution oracles judge it)? Yes when the
+            // operator still receives the same sequence of item types.
+            let tys = |o: &Option<Vec<(String, String)>>| -> Option<Vec<Ty>> { o.as_ref().and_then(|v| v.iter().map(|(a, s)| ty_of(a, s)).collect()) };
+            let got_tys: Option<Vec<Ty>> = got.iter().map(|(a, s, _)| ty_of(a, s)).collect();
+            let exp_tys: Option<Vec<Ty>> = exp.iter().map(|(a, s, _)| ty_of(a, s)).collect();
+            let uniform = |t: &Option<Vec<Ty>>| t.as_ref().is_some_and(|v| v.iter().all(|x| *x == v[0]));
+            let all_same = got.len() == exp.len() && uniform(&got_tys) && uniform(&exp_tys) && got_tys.as_ref().map(|v| v.first().cloned()) == exp_tys.as_ref().map(|v| v.first().cloned());
+            let compiles = all_same
+                || match (tys(&eo), tys(&go)) {
+                    (Some(a), Some(c)) => a == c,
+                    _ => false,
+                };
             let f = |v: &Vec<(String, String, String)>| v.iter().map(|(a, s, d)| format!("{a}{}->[{}]", if s == "[]" { String::new() } else { format!("[{s}]") }, if d == "[]" { "" } else { d })).collect::<Vec<_>>().join(",");
-            errs.push((Some(n.id), format!("node {} `{}` written {} partitioned-graph {}", n.id, n.desc, f(&exp), f(&got)), relabel));
+            errs.push((Some(n.id), format!("node {} `{}` written {} partitioned-graph {}", n.id, n.desc, f(&exp), f(&got)), compiles));
         }
     }
     errs
